@@ -378,7 +378,7 @@ def run_check(check: Check, tier, seed, budget_s=None):
             "distinct_nontrivial": len(nontriv),
             "rule": check.rule,
             "samples": samples[:8] or [{"note": "no non-trivial case recorded"}],
-            "exhaustive": any(r.extra.get("exhaustive_domain") for r in results),
+            "exhaustive": bool(getattr(check, "exhaustive", False)),
             "stages": [{"name": r.name, "evaluations": r.evaluations, "distinct_nontrivial": len(r.nontrivial_keys),
                         "failures": len(r.failures), "budget_reached": r.budget_hit, "excluded_by_construction": r.excluded,
                         **{k: v for k, v in r.extra.items() if k not in ("jobs",) and isinstance(v, (int, float, str, bool, list, dict))}}
@@ -422,3 +422,48 @@ def replay(check: Check, path):
         print(f"VIOLATION property={check.pid} replay={path}")
         return 1
     return 0
+
+
+# ------------------------------------------------------------------ stateful (rule-based machine) stages
+def _machine_worker(args):
+    si, widx, runs, steps, seed, deadline = args
+    import hypothesis
+    from hypothesis import settings, HealthCheck, Phase
+    from hypothesis.stateful import run_state_machine_as_test
+    st = _CTX["stages"][si]
+    res = StageResult(st.name)
+    factory = st.machine           # fn(acc) -> RuleBasedStateMachine subclass; acc collects stats / the last trace
+    acc = {"runs": 0, "steps": 0, "nontrivial": set(), "labels": Counter(), "trace": None, "samples": [], "deadline": deadline}
+    M = factory(acc)
+    try:
+        run_state_machine_as_test(hypothesis.seed(seed)(M), settings=settings(
+            max_examples=runs, stateful_step_count=steps, database=None, deadline=None, derandomize=False, report_multiple_bugs=False,
+            phases=[Phase.generate, Phase.shrink], suppress_health_check=list(HealthCheck)))
+    except AssertionError as e:
+        msg = str(e)
+        sig = msg.split("|")[0].strip()[:120] if msg else "assertion"
+        res.failures.append((sig, msg[:600], {"trace": acc["trace"]}))
+    res.evaluations = acc["runs"]
+    res.nontrivial_keys = acc["nontrivial"]
+    res.labels = acc["labels"]
+    res.samples = acc["samples"][:2]
+    res.extra["machine_steps"] = acc["steps"]
+    return res
+
+
+def machine_stage(name, machine, runs, steps, evaluate=None):
+    """Stage running a hypothesis RuleBasedStateMachine `runs` times (in total) with <= `steps` steps, in the worker pool.
+    `evaluate(spec)` re-executes a stored trace without Hypothesis (replay)."""
+    def custom(ctx):
+        st = ctx["stage"]
+        si = _CTX["stages"].index(st)
+        nw = NPROC if runs >= NPROC * 2 else 1
+        per = -(-runs // nw)
+        jobs = [(si, w, per, steps, derive_seed(ctx["seed"], name, w), ctx["deadline"]) for w in range(nw)]
+        sr = StageResult(name)
+        for p in ctx["pool"].map(_machine_worker, jobs, chunksize=1):
+            sr.merge(p)
+        return sr
+    st = Stage(name, evaluate=evaluate, custom=custom)
+    st.machine = machine
+    return st
